@@ -170,7 +170,7 @@ inline const std::vector<std::string>& allFeatures() {
         "name", "counts", "strval", "axes", "revaxes", "pos", "key", "keyids", "id", "num-single", "num-multi", "num-any", "num-nocount",
         "fmtnum", "fmtnum-df", "arith", "strfn", "copyof", "copy", "rtf", "nodeset", "calltmpl", "choose", "elemattr", "attrset",
         "lre", "message", "modes", "sort2", "comment-pi", "exslt-set", "exslt-math", "exslt-str", "genid", "lang", "sysprop", "param", "ifbool",
-        "union", "preds", "valnum", "apply-imports", "text-nodes", "ns-axis", "doctype-node", "attr-nodes", "number-value", "bigfmt", "xalan-ext", "docfn", "avt-ns"
+        "union", "preds", "valnum", "apply-imports", "text-nodes", "ns-axis", "doctype-node", "attr-nodes", "number-value", "bigfmt", "xalan-ext", "docfn", "avt-ns", "extfn", "paramuse"
     };
     return f;
 }
@@ -229,6 +229,8 @@ struct SSGen {
         if (on("lang")) perNode += o("lang", vo("lang('en')") + "," + vo("lang('fr')") + "," + vo("ancestor-or-self::*[@xml:lang][1]/@xml:lang"));
         if (on("sysprop")) perNode += "<xsl:if test=\"not(preceding::*) and not(ancestor::*)\">" + o("sysprop", vo("system-property('xsl:version')") + "," + vo("function-available('exsl:node-set')") + "," + vo("function-available('nope:x')") + "," + vo("element-available('xsl:if')") + "," + vo("element-available('xsl:nope')")) + "</xsl:if>";
         if (on("param")) { perNode += "<xsl:if test=\"not(ancestor::*)\">" + o("param", vo("$P1") + "|" + vo("$P2 + 1") + "|" + vo("string-length($P1)")) + "</xsl:if>"; }
+        if (on("extfn")) perNode += "<xsl:if test=\"function-available('ext:sq')\">" + o("extfn", vo("ext:sq(@v)") + "," + vo("ext:sq(count(*))")) + "</xsl:if>";
+        if (on("paramuse")) perNode += o("paramuse", vo("concat($P1, '/', @k)") + "|" + vo("$P2 * 2") + "|" + vo("boolean($P1)"));
         if (on("ifbool")) perNode += "<o f=\"ifbool\" n=\"{@id}\"><xsl:if test=\"*\">K</xsl:if><xsl:if test=\"@v\">V</xsl:if><xsl:if test=\"string(@k)\">S</xsl:if><xsl:if test=\"number(@v)\">N</xsl:if><xsl:if test=\"@v = */@v\">E</xsl:if><xsl:if test=\"@v != */@v\">D</xsl:if><xsl:if test=\"*/@v &gt; 10\">G</xsl:if><xsl:if test=\"@k = 'k1' or @k = 'k2' and @v &gt; 3\">P</xsl:if></o>";
         if (on("union")) perNode += "<o f=\"union\" n=\"{@id}\"><xsl:for-each select=\"following-sibling::*[1] | preceding-sibling::*[1] | .. | * | @k\"><xsl:value-of select=\"concat(name(), ':', @id, ' ')\"/></xsl:for-each></o>";
         if (on("preds")) perNode += o("preds", vo("*[2]/@id") + "," + vo("*[last()]/@id") + "," + vo("*[@v][1]/@id") + "," + vo("*[position() &gt; 1][@k='k1']/@id") + "," + vo("(//*)[5]/@id") + "," + vo("descendant::*[3]/@id") + "," + vo("ancestor-or-self::*[last()]/@id") + "," + vo("preceding::*[1]/@id") + "," + vo("(preceding::*)[1]/@id") + "," + vo("../*[@id = current()/@id]/@rk"));
@@ -254,8 +256,8 @@ struct SSGen {
         // ---- assemble ----
         std::string s = "<?xml version=\"1.0\"?>\n<xsl:stylesheet version=\"1.0\" xmlns:xsl=\"http://www.w3.org/1999/XSL/Transform\"";
         s += std::string(" xmlns:p1=\"") + NS1 + "\" xmlns:p2=\"" + NS2 + "\"";
-        s += " xmlns:xalan=\"http://xml.apache.org/xalan\" xmlns:exsl=\"http://exslt.org/common\" xmlns:set=\"http://exslt.org/sets\" xmlns:math=\"http://exslt.org/math\" xmlns:str=\"http://exslt.org/strings\" xmlns:nofn=\"urn:x-nofn\"";
-        s += " exclude-result-prefixes=\"xalan exsl set math str nofn p2\">\n";
+        s += " xmlns:xalan=\"http://xml.apache.org/xalan\" xmlns:exsl=\"http://exslt.org/common\" xmlns:set=\"http://exslt.org/sets\" xmlns:math=\"http://exslt.org/math\" xmlns:str=\"http://exslt.org/strings\" xmlns:nofn=\"urn:x-nofn\" xmlns:ext=\"urn:x-ext\"";
+        s += " exclude-result-prefixes=\"xalan exsl set math str nofn ext p2\">\n";
         if (c.useImport) {
             s += "<xsl:import href=\"imp1.xsl\"/>\n";
             out.resources["imp1.xsl"] = "<?xml version=\"1.0\"?><xsl:stylesheet version=\"1.0\" xmlns:xsl=\"http://www.w3.org/1999/XSL/Transform\"><xsl:template match=\"*\" mode=\"imp\">imp:<xsl:value-of select=\"@id\"/></xsl:template><xsl:template match=\"*[@k='k1']\" mode=\"imp\" priority=\"3\">impk1:<xsl:value-of select=\"@id\"/></xsl:template><xsl:variable name=\"IMPV\" select=\"'from-import'\"/></xsl:stylesheet>";
@@ -269,7 +271,7 @@ struct SSGen {
             out.resources["inc1.xsl"] = "<?xml version=\"1.0\"?><xsl:stylesheet version=\"1.0\" xmlns:xsl=\"http://www.w3.org/1999/XSL/Transform\"><xsl:template name=\"incT\"><xsl:param name=\"x\"/>inc[<xsl:value-of select=\"$x\"/>]</xsl:template></xsl:stylesheet>";
         }
         if (c.stripSpace) s += "<xsl:strip-space elements=\"*\"/><xsl:preserve-space elements=\"p item\"/>\n";
-        if (c.useParam || c.on.count("param")) s += "<xsl:param name=\"P1\" select=\"'dflt'\"/><xsl:param name=\"P2\" select=\"40\"/>\n";
+        if (c.useParam || c.on.count("param") || c.on.count("paramuse")) s += "<xsl:param name=\"P1\" select=\"'dflt'\"/><xsl:param name=\"P2\" select=\"40\"/>\n";
         s += "<xsl:variable name=\"G1\" select=\"count(//*)\"/>\n";
         if (c.docFn) out.resources["aux.xml"] = "<?xml version=\"1.0\"?><aux><x id=\"x1\">one</x><x id=\"x2\">two</x><y><x id=\"x3\">three</x></y></aux>";
         s += top + "\n";
